@@ -359,6 +359,13 @@ def install(I):
         ref = Ref(r.cell, r.path + (i,), 'mut' in f)
         return I.ret(st, some(ref) if is_get else ref)
 
+    @M(r'^core::slice::<impl \[.*\]>::contains$|^Vec::<.*>::contains$|^VecDeque::<.*>::contains$|^<\[.*\]>::contains$', 'slice::contains')
+    def m_contains(I, st, f, args, fr):
+        v = norm_coll(rd(I, st, args[0]), 'Vec')
+        x = rd(I, st, args[1])
+        conds = [key_eq(I, st, it, x) for it in v.fields]
+        return I.ret(st, z3.simplify(z3.Or(conds)) if conds else z3.BoolVal(False))
+
     @M(r'^VecDeque::<.*>::remove$|^Vec::<.*>::remove$|^Vec::<.*>::swap_remove$', 'remove(index)')
     def m_remove_idx(I, st, f, args, fr):
         r = args[0]
